@@ -1,7 +1,7 @@
 #!/bin/bash
 # usage: trymut.sh <patch.diff> <pid> [tier]   -- run a check against a scratch copy of /repo/src with the patch applied
 set -e
-P="$(realpath "$1")"; PID="$2"; TIER="${3:-quick}"
+P="$1"; [ -f "$P" ] || P="/verif/seeded/$1/patch.diff"; P="$(realpath "$P")"; PID="$2"; TIER="${3:-quick}"
 D=$(mktemp -d /var/tmp/mut.XXXXXX)
 cp -r /repo/src "$D/src"
 ( cd "$D" && patch -s -p1 < "$P" )
